@@ -9540,6 +9540,13 @@ def _write_node(node, xml_tree=None, viewport_transform=None):
             xml_tree.set(key, str(value))
         return xml_tree
 
+    def restate(xml_tree, key, value):
+        """A property at zero is not written, and neither is the source's now stale text for it."""
+        if value:
+            xml_tree.set(key, str(value))
+        else:
+            xml_tree.attrib.pop(key, None)
+
     if isinstance(node, SVG):
         if xml_tree is None:
             xml_tree = subxml(xml_tree, SVG_NAME_TAG)
@@ -9575,34 +9582,23 @@ def _write_node(node, xml_tree=None, viewport_transform=None):
             _write_node(child, xml_tree, vt)
     elif isinstance(node, Ellipse):
         xml_tree = subxml(xml_tree, SVG_TAG_ELLIPSE)
-        if node.cx:
-            xml_tree.set(SVG_ATTR_CENTER_X, str(node.cx))
-        if node.cy:
-            xml_tree.set(SVG_ATTR_CENTER_Y, str(node.cy))
-        if node.rx:
-            xml_tree.set(SVG_ATTR_RADIUS_X, str(node.rx))
-        if node.ry:
-            xml_tree.set(SVG_ATTR_RADIUS_Y, str(node.ry))
+        restate(xml_tree, SVG_ATTR_CENTER_X, node.cx)
+        restate(xml_tree, SVG_ATTR_CENTER_Y, node.cy)
+        restate(xml_tree, SVG_ATTR_RADIUS_X, node.rx)
+        restate(xml_tree, SVG_ATTR_RADIUS_Y, node.ry)
     elif isinstance(node, Circle) and node.rx != node.ry:
         # Reified by an uneven scale a circle has two radii, only an ellipse can state them.
         xml_tree = subxml(xml_tree, SVG_TAG_ELLIPSE)
         xml_tree.attrib.pop(SVG_ATTR_RADIUS, None)
-        if node.cx:
-            xml_tree.set(SVG_ATTR_CENTER_X, str(node.cx))
-        if node.cy:
-            xml_tree.set(SVG_ATTR_CENTER_Y, str(node.cy))
-        if node.rx:
-            xml_tree.set(SVG_ATTR_RADIUS_X, str(node.rx))
-        if node.ry:
-            xml_tree.set(SVG_ATTR_RADIUS_Y, str(node.ry))
+        restate(xml_tree, SVG_ATTR_CENTER_X, node.cx)
+        restate(xml_tree, SVG_ATTR_CENTER_Y, node.cy)
+        restate(xml_tree, SVG_ATTR_RADIUS_X, node.rx)
+        restate(xml_tree, SVG_ATTR_RADIUS_Y, node.ry)
     elif isinstance(node, Circle):
         xml_tree = subxml(xml_tree, SVG_TAG_CIRCLE)
-        if node.cx:
-            xml_tree.set(SVG_ATTR_CENTER_X, str(node.cx))
-        if node.cy:
-            xml_tree.set(SVG_ATTR_CENTER_Y, str(node.cy))
-        if node.rx:
-            xml_tree.set(SVG_ATTR_RADIUS, str(node.rx))
+        restate(xml_tree, SVG_ATTR_CENTER_X, node.cx)
+        restate(xml_tree, SVG_ATTR_CENTER_Y, node.cy)
+        restate(xml_tree, SVG_ATTR_RADIUS, node.rx)
     elif isinstance(node, Image):
         xml_tree = subxml(xml_tree, SVG_TAG_IMAGE)
         from base64 import b64encode
@@ -9625,14 +9621,10 @@ def _write_node(node, xml_tree=None, viewport_transform=None):
             xml_tree.set(SVG_ATTR_HEIGHT, str(node.height))
     elif isinstance(node, SimpleLine):
         xml_tree = subxml(xml_tree, SVG_TAG_LINE)
-        if node.x1:
-            xml_tree.set(SVG_ATTR_X1, str(node.x1))
-        if node.y1:
-            xml_tree.set(SVG_ATTR_Y1, str(node.y1))
-        if node.x2:
-            xml_tree.set(SVG_ATTR_X2, str(node.x2))
-        if node.y2:
-            xml_tree.set(SVG_ATTR_Y2, str(node.y2))
+        restate(xml_tree, SVG_ATTR_X1, node.x1)
+        restate(xml_tree, SVG_ATTR_Y1, node.y1)
+        restate(xml_tree, SVG_ATTR_X2, node.x2)
+        restate(xml_tree, SVG_ATTR_Y2, node.y2)
     elif isinstance(node, Path):
         xml_tree = subxml(xml_tree, SVG_TAG_PATH)
         xml_tree.set(SVG_ATTR_DATA, node.d(transformed=False))
@@ -9650,18 +9642,12 @@ def _write_node(node, xml_tree=None, viewport_transform=None):
         )
     elif isinstance(node, Rect):
         xml_tree = subxml(xml_tree, SVG_TAG_RECT)
-        if node.x:
-            xml_tree.set(SVG_ATTR_X, str(node.x))
-        if node.y:
-            xml_tree.set(SVG_ATTR_Y, str(node.y))
-        if node.rx:
-            xml_tree.set(SVG_ATTR_RADIUS_X, str(node.rx))
-        if node.ry:
-            xml_tree.set(SVG_ATTR_RADIUS_Y, str(node.ry))
-        if node.width:
-            xml_tree.set(SVG_ATTR_WIDTH, str(node.width))
-        if node.height:
-            xml_tree.set(SVG_ATTR_HEIGHT, str(node.height))
+        restate(xml_tree, SVG_ATTR_X, node.x)
+        restate(xml_tree, SVG_ATTR_Y, node.y)
+        restate(xml_tree, SVG_ATTR_RADIUS_X, node.rx)
+        restate(xml_tree, SVG_ATTR_RADIUS_Y, node.ry)
+        restate(xml_tree, SVG_ATTR_WIDTH, node.width)
+        restate(xml_tree, SVG_ATTR_HEIGHT, node.height)
     elif isinstance(node, Text):
         xml_tree = subxml(xml_tree, SVG_TAG_TEXT)
         xml_tree.text = node.text
